@@ -19,6 +19,41 @@ type arrSlice struct {
 func (e *Encoder) call(in *ssa.Call, st *State, pc string) {
 	v := e.callCommon(in, in.Common(), in, st, pc)
 	e.vals[in] = v
+	// contracts can name the result of the k-th call of a function or method as $<name><k>
+	// (tuple results: $<name><k>_<i>) and ask whether that call was reached on the current path.
+	cm := in.Common()
+	name := ""
+	switch {
+	case cm.IsInvoke():
+		name = cm.Method.Name()
+	case cm.StaticCallee() != nil:
+		name = cm.StaticCallee().Name()
+	}
+	if name != "" {
+		e.nameValue("$"+name, v, pc)
+	}
+}
+
+// nameValue registers v under base<k> (k = ordinal of that base name in encoding order).
+func (e *Encoder) nameValue(base string, v Val, pc string) {
+	k := e.counts["$name "+base]
+	e.counts["$name "+base]++
+	n := fmt.Sprintf("%s%d", base, k)
+	if e.reachedPC == nil {
+		e.reachedPC = map[string]string{}
+	}
+	if v.Tuple != nil {
+		for i, t := range v.Tuple {
+			e.params[fmt.Sprintf("%s_%d", n, i)] = t
+			e.reachedPC[fmt.Sprintf("%s_%d", n, i)] = pc
+		}
+		return
+	}
+	e.reachedPC[n] = pc
+	if v.S == "" {
+		return // no result to name, but reached($name) still works
+	}
+	e.params[n] = v
 }
 
 func (e *Encoder) callCommon(instr ssa.Instruction, cm *ssa.CallCommon, res ssa.Value, st *State, pc string) Val {
@@ -36,7 +71,9 @@ func (e *Encoder) callCommon(instr ssa.Instruction, cm *ssa.CallCommon, res ssa.
 	}
 	if cm.IsInvoke() {
 		recv := e.val(cm.Value)
-		if v, ok := e.ifaceCall(cm, recv, args, resT, st, pc); ok {
+		isname := e.siteName("call", cm.Method.Name())
+		e.siteAsserts("call "+cm.Method.Name(), isname, st, pc, args)
+		if v, ok := e.ifaceCall(cm, recv, args, resT, st, pc, isname); ok {
 			return v
 		}
 		e.havocAll(st, fmt.Sprintf("interface call %s", cm.Method.Name()))
@@ -55,7 +92,9 @@ func (e *Encoder) callCommon(instr ssa.Instruction, cm *ssa.CallCommon, res ssa.
 					for _, b := range mc.Bindings {
 						bind = append(bind, e.val(b))
 					}
-					return e.applyContract(fc, fn, args, bind, resT, st, pc)
+					sn := e.siteName("call", fn.Name())
+					e.siteAsserts("call "+fn.Name(), sn, st, pc, args)
+					return e.applyContract(fc, fn, args, bind, resT, st, pc, sn)
 				}
 			}
 		}
@@ -67,17 +106,19 @@ func (e *Encoder) callCommon(instr ssa.Instruction, cm *ssa.CallCommon, res ssa.
 		e.counts["$dyn"]++
 		return v
 	}
+	ssn := e.siteName("call", callee.Name())
+	e.siteAsserts("call "+callee.Name(), ssn, st, pc, args)
 	if mc, ok := cm.Value.(*ssa.MakeClosure); ok {
 		if fc := e.prog.contractFor(callee); fc != nil {
 			var bind []Val
 			for _, b := range mc.Bindings {
 				bind = append(bind, e.val(b))
 			}
-			return e.applyContract(fc, callee, args, bind, resT, st, pc)
+			return e.applyContract(fc, callee, args, bind, resT, st, pc, ssn)
 		}
 	}
 	if fc := e.prog.contractFor(callee); fc != nil {
-		return e.applyContract(fc, callee, args, nil, resT, st, pc)
+		return e.applyContract(fc, callee, args, nil, resT, st, pc, ssn)
 	}
 	if v, ok := e.stdlibCall(callee, cm, args, resT, st, pc); ok {
 		return v
@@ -115,9 +156,8 @@ func (e *Encoder) siteName(kind, what string) string {
 }
 
 // applyContract: modular call. Asserts requires, havocs modifies, assumes ensures.
-func (e *Encoder) applyContract(fc *FuncContract, callee *ssa.Function, args []Val, bindings []Val, resT types.Type, st *State, pc string) Val {
+func (e *Encoder) applyContract(fc *FuncContract, callee *ssa.Function, args []Val, bindings []Val, resT types.Type, st *State, pc string, sname string) Val {
 	c := e.c
-	sname := e.siteName("call", callee.Name())
 	pre := st.clone()
 	env := &Env{c: c, pkg: callee.Pkg.Pkg, vars: map[string]Val{}, mem: pre.memFn(c), freshBase: pre.ctr, wt: e.assumeCellWT}
 	names := paramNames(callee, fc)
@@ -152,7 +192,6 @@ func (e *Encoder) applyContract(fc *FuncContract, callee *ssa.Function, args []V
 		}
 		env.vars[g.Name] = v
 	}
-	e.siteAsserts("call "+callee.Name(), sname, st, pc, args)
 	for _, r := range fc.Requires {
 		s, err := env.ElabBool(r.E)
 		if err != nil {
@@ -539,7 +578,7 @@ func (e *Encoder) unboxFn(t types.Type) string {
 	return n
 }
 
-func (e *Encoder) ifaceCall(cm *ssa.CallCommon, recv Val, args []Val, resT types.Type, st *State, pc string) (Val, bool) {
+func (e *Encoder) ifaceCall(cm *ssa.CallCommon, recv Val, args []Val, resT types.Type, st *State, pc string, sname string) (Val, bool) {
 	// error.Error(), fmt.Stringer: pure
 	if cm.Method.Name() == "Error" && cm.Method.Type().(*types.Signature).Params().Len() == 0 {
 		v := e.freshVal("errstr", resT)
@@ -548,12 +587,12 @@ func (e *Encoder) ifaceCall(cm *ssa.CallCommon, recv Val, args []Val, resT types
 	}
 	if fc := e.prog.ifaceContract(cm.Method); fc != nil {
 		// treat like a static call with the interface method contract
-		return e.applyIfaceContract(fc, cm, recv, args, resT, st, pc), true
+		return e.applyIfaceContract(fc, cm, recv, args, resT, st, pc, sname), true
 	}
 	return Val{}, false
 }
 
-func (e *Encoder) applyIfaceContract(fc *FuncContract, cm *ssa.CallCommon, recv Val, args []Val, resT types.Type, st *State, pc string) Val {
+func (e *Encoder) applyIfaceContract(fc *FuncContract, cm *ssa.CallCommon, recv Val, args []Val, resT types.Type, st *State, pc string, sname string) Val {
 	c := e.c
 	pre := st.clone()
 	env := &Env{c: c, pkg: e.pkg, vars: map[string]Val{}, mem: pre.memFn(c), freshBase: pre.ctr, wt: e.assumeCellWT}
@@ -566,7 +605,6 @@ func (e *Encoder) applyIfaceContract(fc *FuncContract, cm *ssa.CallCommon, recv 
 		}
 	}
 	env.old = env
-	sname := e.siteName("call", cm.Method.Name())
 	for _, r := range fc.Requires {
 		s, err := env.ElabBool(r.E)
 		if err != nil {
